@@ -234,3 +234,57 @@ def implied_by_all(e: ast.AST, atoms) -> bool:
         vals = [implied_by_all(v, atoms) for v in e.values]
         return all(vals) if isinstance(e.op, ast.And) else any(vals)
     return False
+
+
+
+class Unknown(Exception):
+    pass
+
+
+def truth_eval(e: ast.AST, leaves: Dict[str, object]):
+    """value of a side-effect-free expression when the leaves (normalised source text -> value) are given: a finite truth table instead of a
+    comparison of texts, so that `a == b` and `not (a != b)` are the same predicate.  Raises Unknown for anything else."""
+    t = norm(e)
+    if t in leaves:
+        return leaves[t]
+    if isinstance(e, ast.Constant):
+        return e.value
+    if isinstance(e, ast.BoolOp):
+        vals = [truth_eval(v, leaves) for v in e.values]
+        return all(vals) if isinstance(e.op, ast.And) else any(vals)
+    if isinstance(e, ast.UnaryOp):
+        v = truth_eval(e.operand, leaves)
+        if isinstance(e.op, ast.Not):
+            return not v
+        if isinstance(e.op, ast.USub):
+            return -v
+    if isinstance(e, ast.BinOp) and isinstance(e.op, (ast.Add, ast.Sub)):
+        l, r = truth_eval(e.left, leaves), truth_eval(e.right, leaves)
+        return l + r if isinstance(e.op, ast.Add) else l - r
+    if isinstance(e, ast.Compare):
+        import operator
+        ops = {ast.Eq: operator.eq, ast.NotEq: operator.ne, ast.Lt: operator.lt, ast.LtE: operator.le, ast.Gt: operator.gt, ast.GtE: operator.ge, ast.Is: operator.is_, ast.IsNot: operator.is_not}
+        left = truth_eval(e.left, leaves)
+        for op, c in zip(e.ops, e.comparators):
+            right = truth_eval(c, leaves)
+            if type(op) not in ops or not ops[type(op)](left, right):
+                if type(op) not in ops:
+                    raise Unknown(norm(e))
+                return False
+            left = right
+        return True
+    if isinstance(e, ast.IfExp):
+        return truth_eval(e.body if truth_eval(e.test, leaves) else e.orelse, leaves)
+    if isinstance(e, ast.Call) and dotted(e.func) == "bool" and len(e.args) == 1:
+        return bool(truth_eval(e.args[0], leaves))
+    raise Unknown(t)
+
+
+def same_predicate(e: Optional[ast.AST], cases) -> bool:
+    """does the expression have the expected value in every case?  cases: [(leaves, expected)]"""
+    if e is None:
+        return False
+    try:
+        return all(bool(truth_eval(e, lv)) == exp for lv, exp in cases)
+    except Unknown:
+        return False
